@@ -94,7 +94,7 @@ def random_gap(r, where, default, nasty, required=True):
 PLAIN_NAMES = ["a", "b", "c1", "col_2", "Name", "primaryEmail", "checked", "uniqueId", "foreign_id", "constraintx",
                "defaulted", "notes", "x", "_y", "é", "日本", "Z9", "asof", "without_x", "rowid_", "k"]
 QUOTED_EXTRA = ["a b", "a,b", "a(b", "a)b", "(", ")", "a-b", "a--b", "a/b", "a/*b", "a.b", "primary", "check", "select",
-                "a  b", "a\tb", "é ü", "x'y", 'x"y', "x`y", "x[y", "1a", "", "a;b", "CONSTRAINT", "unique", " lead", "trail ", "a\nb", "a\nb"]
+                "a  b", "a\tb", "é ü", "x'y", 'x"y', "x`y", "x[y", "1a", "", "a;b", "CONSTRAINT", "unique", " lead", "trail ", "a\nb", "a\nb", "[a", "a["]
 QUOTE = {"dq": ('"', '"'), "sq": ("'", "'"), "bt": ("`", "`"), "br": ("[", "]")}
 # names that contain the quote character of their own quoting style (Q): written doubled, read back single (687226d)
 DOUBLED = ["xQy", "Q", "QQ", "aQ", "Qa", "aQQb", "QaQ", "a QbQ", "itQs", "aQ,b", "aQ(b", "aQ)b", "Q é", "Q.Q"]
@@ -136,8 +136,10 @@ def ident_tags(i):
         if txt == "":
             t.add("ident:empty")
         if "\n" in txt:
-            # inside "…", '…', `…` the name regex is a negated class since 687226d; […] is still `.*?`
-            t.add("ident:newline-in-bracket" if i["s"] == "br" else "quote-newline:" + i["s"])
+            # informational: every style reads a newline inside the name (687226d; brackets since 417a203)
+            t.add("quote-newline:" + i["s"])
+        if i["s"] == "br" and (txt.startswith("[") or txt.endswith("[")):
+            t.add("ident:bracket-edge")         # .strip("[]") removes a "[" that belongs to the name
     if any(ord(ch) > 127 for ch in i["t"]):
         t.add("ident:non-ascii")
     return t
